@@ -309,28 +309,21 @@ def _judge(pid, ops, key, seed, model, oracle, fails, mism):
     return r
 
 
-def special_C29(seed, tier, model, deadline):
+def _zoo_programs(seed, n, kinds):
     """state zoo x call matrix: one connection fed hand-made frames is driven into unusual states (streams open, half
     closed either way, reserved either way, reset by either side, ended, forgotten; stream windows zero or negative after
     the peer lowered INITIAL_WINDOW_SIZE; MAX_FRAME_SIZE raised and lowered again while streams exist; concurrency limit
     0; GOAWAY received or sent; connection closed by an error) and then every public call is tried with boundary
     arguments on known, forgotten, never-used and nonsensical stream ids."""
     import random
-    import time
     import wire
-    from oracles import oracle_C29
     REQ = [(b':method', b'GET', False), (b':scheme', b'https', False), (b':path', b'/', False), (b':authority', b'x', False)]
     POST = [(b':method', b'POST', False), (b':scheme', b'https', False), (b':path', b'/', False), (b':authority', b'x', False)]
     RESP = [(b':status', b'200', False)]
     INFO = [(b':status', b'100', False)]
     TRAIL = [(b'x-trailer', b'1', False)]
     blk = wire.hpack_literal_block
-    n = {'quick': 300, 'thorough': 6000}.get(tier, 300)
-    fails, mism, progs, nops = [], [], 0, 0
-    kinds = {}
     for k in range(n):
-        if time.time() > deadline:
-            break
         rng = random.Random((seed * 77003 + k) & 0xFFFFFFFF)
         client = rng.random() < 0.5
         ops = [{'op': 'new', 'c': 0, 'client': client, 'vo': 1, 'no': 1, 'vi': 1, 'ni': 1, 'enc': None}]
@@ -528,11 +521,38 @@ def special_C29(seed, tier, model, deadline):
                 ops.append({'op': rng.choice(['initiate_connection', 'clear_out'])})
                 ops[-1]['c'] = 0
             kinds[ops[-1]['op']] = kinds.get(ops[-1]['op'], 0) + 1
-        _judge('C29', ops, 'zoo-%d' % k, seed, model, oracle_C29, fails, mism)
+        yield 'zoo-%d' % k, ops
+
+
+
+
+def _run_zoo(pid, oracle, seed, tier, model, deadline, quick_n):
+    import time
+    n = {'quick': quick_n, 'thorough': 6000}.get(tier, quick_n)
+    fails, mism, progs, nops = [], [], 0, 0
+    kinds = {}
+    for key, ops in _zoo_programs(seed, n, kinds):
+        if time.time() > deadline:
+            break
+        _judge(pid, ops, key, seed, model, oracle, fails, mism)
         progs += 1
         nops += len(ops)
     return {'failures': fails, 'mismatches': mism,
             'coverage': {'state_zoo_programs': progs, 'state_zoo_ops': nops, 'state_zoo_probe_calls': kinds}}
+
+
+def special_C29(seed, tier, model, deadline):
+    """the state zoo (see _zoo_programs) judged by oracle_C29"""
+    from oracles import oracle_C29
+    return _run_zoo('C29', oracle_C29, seed, tier, model, deadline, 300)
+
+
+def special_C02(seed, tier, model, deadline):
+    """the state zoo (frame sizes raised and lowered while streams exist, header blocks and data at the limits, every
+    call with boundary arguments) judged by oracle_C02: whatever is appended must parse, fit the peer's limit and be
+    exactly the call's frames"""
+    from oracles import oracle_C02
+    return _run_zoo('C02', oracle_C02, seed, tier, model, deadline, 300)
 
 
 def mutate_block(rng, base, kind):
